@@ -60,7 +60,12 @@ def run(chk, replay=None):
         for _ in range(24 if tier == "quick" else 300):
             reqs = [q for q in g.sequence(rng.choice([15, 30, 50])) if c07.variant_of(q) not in ("NodeAddr", "Members")]
             p = rng.randrange(0, len(reqs))
-            icases.append({"k": "install", "reqs": reqs[:p] + [q for q in reqs[p:] if not removal(q)], "prefix": p})
+            # round 7: the same snapshot delivered twice (install_idempotent) and a committed log suffix applied to both
+            # nodes afterwards (install_then_follow); the suffix may remove keys again: both nodes apply the same entries
+            suffix = [q for q in g.sequence(rng.choice([5, 12])) if c07.variant_of(q) not in ("NodeAddr", "Members")
+                      and "InitFromOldValue" not in json.dumps(q)]
+            icases.append({"k": "install", "reqs": reqs[:p] + [q for q in reqs[p:] if not removal(q)], "prefix": p,
+                           "again": True, "suffix": suffix})
         # renamed namespace / moved sequence / republished config / changed user row inside the part B has not seen
         icases.append({"k": "install", "prefix": 4, "reqs": [
             {"NamespaceReq": {"Set": {"namespace_id": "dev", "namespace_name": "Development", "type": "2"}}},
@@ -96,6 +101,23 @@ def run(chk, replay=None):
                                  "in the rest) serves different %s than the leader: %s"
                                  % (c["prefix"], len(c["reqs"]), comp, lib.diff_first(va[comp], vb[comp])),
                                  {"suite": "dispatch", "case": c, "component": comp, "leader": va[comp], "installed": vb[comp]})
+            if r.get("b_again") is not None:
+                vg = view(r["b_again"])
+                for comp in vb:
+                    if vb[comp] != vg[comp]:
+                        chk.classify("install-again:%s" % comp,
+                                     "the same snapshot loaded a second time over a running node changes the %s it serves: %s"
+                                     % (comp, lib.diff_first(vb[comp], vg[comp])),
+                                     {"suite": "dispatch", "case": c, "component": comp, "first": vb[comp], "second": vg[comp]})
+            if r.get("a_after") is not None and all(va[comp] == vb[comp] for comp in va):
+                wa, wb = view(r["a_after"]), view(r["b_after"])
+                nontrivial.add(("install-follow", len(c.get("suffix", [])), c["prefix"]))
+                for comp in wa:
+                    if wa[comp] != wb[comp]:
+                        chk.classify("install-follow:%s" % comp,
+                                     "after the install the follower applied the same %d committed entries as the leader but serves "
+                                     "different %s: %s" % (len(c.get("suffix", [])), comp, lib.diff_first(wa[comp], wb[comp])),
+                                     {"suite": "dispatch", "case": c, "component": comp, "leader": wa[comp], "follower": wb[comp]})
         chk.cov["install_live_cases"] = n_inst
 
     # ---- NamespaceActor scripts: the real actor vs SM/ConcreteNs.v (incl. weak namespaces and LIVE install) ------
